@@ -34,12 +34,24 @@ CHECKS.update({
     "C11": bounded("Executable postconditions of generate_*_report / generate_report: reading the '- file:line' entries back reproduces the findings; each list is preceded by its own pattern's section; a section appears iff the pattern has a finding. Every single pattern x 21 file/line shapes exhaustively + seeded random maps.", "String concatenation (Verus internal error on String + &str), by-value iteration over HashMap, integer to_string", "§9 C11-C13"),
     "C12": bounded("Executable postconditions on totals and headings; ALL 16 subsets of the four vulnerability patterns x all 21 file/line shapes per pattern enumerated completely (234,256 maps) + all 64 category-state combinations of the whole report + seeded random maps.", "String concatenation, by-value iteration over HashMap, integer to_string", "§9 C11-C13"),
     "C13": bounded("Relational check: the same findings set rendered from fresh HashMap instances (different hash seeds), permuted insertion orders of patterns and of (file, lines) vectors, and child processes must give byte-identical text equal to the canonical rendering.", "HashMap iteration order / per-process hash seeds", "§9 C11-C13"),
-    "C14": bounded("Executable contract of str_to_* / get_all_* over every documented name (scraped from docs/, README.md, Solstat.toml on each run) x casings, junk names rejected; precedence --path > toml path > ./contracts and exact pattern selection observed through hook H1 and the report of the real binary; unknown name => non-zero exit and no report.", "clap, toml, process exit status or str::to_lowercase", "§9 C14"),
-    "C02": bounded("get_line_number(off, s) == 1 + #LF before off: EXHAUSTIVE over all texts of <= 7 characters over {a, LF, CR, e-acute} x all admissible offsets (109,227 cases) + seeded long texts; analyze_for_* line sets == lines of the detector's location starts over programs x 15 layouts x 30 detectors. Which node's location each detector reports is part of the Verus contracts of C05-C07 (loc_P).", "the regex crate (external iterator types) or by-value iteration over HashSet", "§9 C02"),
+    "C14": dict(level="other",
+        text="Verus (unit dispatch): the default lists get_all_optimizations / get_all_vulnerabilities / get_all_qa are PROVED to contain every variant of their enum (without a configuration file all patterns run), and analyze_for_* are PROVED to hand each pattern to the detector documented for it (variant -> detector table written from the documentation; the detector must be defined in the module file named after the pattern). BOUNDED for the rest: executable contract of str_to_* over every documented name (scraped from docs/, README.md, Solstat.toml on each run) x casings, junk names rejected; precedence --path > toml path > ./contracts and exact pattern selection observed through hook H1 and the report of the real binary; unknown name => non-zero exit and no report.",
+        design="§9 C14",
+        note="Trusted: Verus/Z3, vstd; detectors are external_body stubs in unit dispatch. BOUNDED, never counted as proved: str_to_* (match on lower-cased string literals is outside Verus' subset), Opts::new and main (clap, toml, process exit status) -- exercised through the built binary over the generated cases only.",
+        technique="contract-based deductive verification (Verus) of get_all_* and the analyze_for_* dispatch; bounded executable-contract check of the name tables and of the binary for everything clap/toml/process-level"),
+    "C02": dict(level="other",
+        text="Verus: get_line_number is PROVED to return 1 + the number of line feeds that precede the offset, for every text and every offset that is not itself a line feed (unit lines, over a trusted model of the regex crate for the pattern \\n); analyze_for_optimization / _vulnerability / _qa are PROVED to return exactly { line_of(start of l) | l reported by the pattern's detector } (unit dispatch: parse, dispatch, by-value iteration of the location set, pt's Loc::start, BTreeSet insertion). Which node's location each detector reports is part of the proved detector contracts of C05-C07/C09 (loc_P). BOUNDED: get_line_number EXHAUSTIVE over all texts of <= 7 characters over {a, LF, CR, e-acute} x all admissible offsets (109,227 cases) + seeded long texts (this is also the only check of the regex model itself); analyze_for_* line sets over programs x 15 layouts x 30 detectors; c02-loc (wrong-node location) for the detectors not under a Verus contract.",
+        design="§9 C02",
+        note="Trusted: Verus/Z3, vstd (BTreeSet specs), the regex-crate model (external_body: for `\\n` the captures are the line feeds, one group each, increasing offsets), solang_parser::parse as an uninterpreted partial function, HashSet by-value iteration model, precondition that reported locations are Loc::File offsets of token starts and that a text has < 2^31-16 line feeds. The bounded parts are never counted as proved.",
+        technique="contract-based deductive verification (Verus) of get_line_number and analyze_for_* against the line model; bounded executable-contract check (exhaustive on short texts) as counterexample engine and for the regex model"),
     "C17": bounded("Relational check over token-preserving re-layouts (one token per line as reference, CRLF, random white space, code-like comments, multi-byte comments, string contents neutralised): the same tokens start flagged constructs, for 30 detectors. Deductive half: every spec predicate pat_P of the Verus units is Loc-blind.", "the lexer/parser (an unverified dependency)", "§9 C17"),
-    "C15": bounded("Each (file, pattern) evaluated alone, repeated, with different file numbers, after the 29 other patterns in seeded permuted orders, from 8 concurrently running threads and in a fresh process; results compared. Thread interleavings are sampled by the OS scheduler, not explored. Deductive half: every function with a proved functional postcondition (Verus units) is a function of its arguments only; frame scan for statics/thread_locals/interior mutability.", "threads (neither Verus without its permission types nor Kani) or process state", "§9 C15"),
+    "C15": dict(level="other",
+        text="Verus (unit dispatch): analyze_for_* are PROVED to return a set that is a function of (text, file number, pattern) alone -- `is_lines_of(r@, text, locs(pattern, parse_tree(text, file_number)))` -- given that the parser and each detector are functions of their arguments (proved for the detectors with set-valued contracts in the det_* units; frame scan for statics / thread_locals / interior mutability for the rest). BOUNDED for everything about the run around a call: each (file, pattern) evaluated alone, repeated, with different file numbers, after the 29 other patterns in seeded permuted orders, from 8 concurrently running threads (also deeply nested files), from the same String buffer holding different texts one after the other, in a fresh process, and inside analyze_dir with arbitrary siblings (native c03); results compared. Thread interleavings are sampled by the OS scheduler, not explored.",
+        design="§9 C15",
+        note="Trusted: Verus/Z3, vstd, parser as an uninterpreted function, detector stubs in unit dispatch. BOUNDED, never counted as proved: threads (neither Verus without its permission types nor Kani), process state, analyze_dir.",
+        technique="contract-based deductive verification (Verus): functional postconditions make the result a function of the arguments; bounded relational check for threads / directory position / process state"),
     "C05": dict(level="other",
-        text="All 11 detectors are PROVED with Verus to report exactly hits(pat_P, loc_P) over the complete node enumeration of C01 (address_balance, address_zero, bool_equals_bool, assign_update_array_value, cache_array_length, increment_decrement [= all ++/-- locations minus the prefix forms nested in statements of unchecked blocks; trusted model of by-value HashSet iteration], multiple_require, optimal_comparison, shift_math, solidity_keccak256, solidity_math), with lemmas canon_P => pat_P => match_P tying pat_P to DESIGN §8 where they differ. ONE piece is bounded only: the body of shift_math's helper number_literal_is_power_of_two (decimal-string arithmetic on bytes, iterator adapters: outside Verus); its callers are proved against an uninterpreted spec_pow2_literal and the helper is checked by the native corpus on every 2^k, 2^k+-1 (k <= 300), separators, leading zeros and exponent forms. The native corpus is also the counterexample engine for the proved functions.",
+        text="All 11 detectors are PROVED with Verus to report exactly hits(pat_P, loc_P) over the complete node enumeration of C01 (address_balance, address_zero, bool_equals_bool, assign_update_array_value, cache_array_length, increment_decrement [= all ++/-- locations minus the prefix forms nested in statements of unchecked blocks; trusted model of by-value HashSet iteration], multiple_require, optimal_comparison, shift_math, solidity_keccak256, solidity_math), with lemmas canon_P => pat_P => match_P tying pat_P to DESIGN §8 where they differ. shift_math's helper number_literal_is_power_of_two is split mechanically (R6): its halving loop -- digit vector of ANY length -> is the value a power of two -- is PROVED in unit pow2 (terminates, no index or arithmetic error, result == is_pow2(decimal value)); ONE piece is bounded only: the statements before that loop (digit filtering, exponent handling, leading-zero removal: iterator adapters and str::parse, outside Verus); the callers are proved against an uninterpreted spec_pow2_literal and the helper as a whole is checked by the native corpus on every 2^k, 2^k+-1 (k <= 300), separators, leading zeros and exponent forms. The native corpus is also the counterexample engine for the proved functions.",
         design="§4.2, §8 C05, §9",
         note="Trusted: Verus/Z3, vstd, walker contract (proved, C01), assumed std string contracts, tuple equality componentwise, HashSet::extend is union, trusted HashSet iteration model, R5 desugaring of for+continue (multiple_require). The helper part is bounded.",
         technique="contract-based deductive verification (Verus) of the real detector functions against hits/pat/loc specs; bounded executable-contract check for the one helper body outside Verus' reach"),
@@ -107,7 +119,7 @@ def main():
             "guard": "solstat_verif",
             "enable": "RUSTFLAGS=\"--cfg solstat_verif\" (set by vx when it builds /repo through the native harness)",
             "baseline_off_cmd": "cd /repo && cargo test --workspace --no-fail-fast --offline",
-            "source_commits": [],
+            "source_commits": ["c17e9c0"],
             "add_only": True,
         },
         "engines": [
